@@ -15,7 +15,9 @@ VARIABLE c
 Srcs    == {"chain", "si", "si_exit"}      \* get-method answers | account unknown to the executor | get-method exits with an error code
 Times   == {"fresh", "proof_b-1", "proof_b+1", "payload_b-1", "payload_b+1"}
 Tampers == {"none",
-            "signer", "sig_flip", "sig_short", "sig_empty", "sig_bad_b64", "forged_zero_key",
+            "signer", "sig_flip", "sig_short", "sig_empty", "sig_bad_b64", "forged_zero_key", "sig_degenerate",
+            "ck_zero_honest", "ck_zero_degenerate", "ck_one_honest", "ck_one_degenerate", "ck_short_honest", "ck_short_degenerate",
+            "ck_pad24_honest", "ck_pad24_degenerate", "ck_pad31_honest", "ck_pad31_degenerate",
             "chain_differs_signer_owner", "chain_differs_signer_chain",
             "address", "address_unknown", "workchain", "addr_bad_hex", "addr_friendly",
             "wc_plus256", "wc_minus256", "wc_plus512", "wc_plus65536", "wc_minus65536", "wc_plus16777216", "wc_int32_max", "wc_int32_min",
@@ -30,7 +32,7 @@ Honest(src, ver, time) ==
   [plWf |-> TRUE, plMac |-> TRUE, plFresh |-> IF time = "payload_b+1" THEN "no" ELSE "yes",
    addrWf |-> TRUE, sigB64 |-> TRUE, sigCanon |-> TRUE,
    prFresh |-> IF time = "proof_b+1" THEN "no" ELSE "yes", domOK |-> TRUE,
-   chain |-> IF src = "chain" THEN "key" ELSE "none", chainKey |-> IF src = "chain" THEN "owner" ELSE "", sigChain |-> src = "chain",
+   chain |-> IF src = "chain" THEN "key" ELSE "none", chainJunk |-> FALSE, chainKey |-> IF src = "chain" THEN "owner" ELSE "", sigChain |-> src = "chain",
    siGiven |-> TRUE, siB64 |-> TRUE, siCanon |-> TRUE, siBoc |-> TRUE, siLayout |-> TRUE, siHash |-> TRUE, siCode |-> TRUE, siData |-> TRUE,
    siWallet |-> WalletByName(ver).cls, siKeyOK |-> TRUE, siFull |-> TRUE, siKey |-> "owner", sigSi |-> TRUE]
 
@@ -43,6 +45,19 @@ Apply(t, f, src) ==
   CASE t = "none" -> f
     [] t \in {"signer", "sig_flip", "sig_short", "sig_empty", "forged_zero_key", "domain_swapped", "timestamp", "payload"} -> NoSig(f)
     [] t = "sig_bad_b64" -> [f EXCEPT !.sigB64 = FALSE]
+    \* what the account answers to get_public_key x who signed.  Answers: 0 | 1 | a number of fewer than 24 bytes (no key: junk) |
+    \* 24 random bytes, i.e. a number with 8 leading zero bytes (a key, but nobody's here) | the owner's key, which begins with a
+    \* zero byte (31 significant bytes).  Signature: the owner's, or the degenerate one (R of small order, S = 0) that verifies for
+    \* keys of small order -- the attacker looks for a payload / timestamp for which it does.  (For the other key sources the
+    \* account does not answer at all; the rows then only differ in the signature.)
+    [] t = "sig_degenerate" -> NoSig(f)
+    [] t \in {"ck_zero_honest", "ck_one_honest", "ck_short_honest"} -> IF src = "chain" THEN [NoChain(f) EXCEPT !.chainJunk = TRUE] ELSE f
+    [] t \in {"ck_zero_degenerate", "ck_one_degenerate", "ck_short_degenerate"} ->
+         IF src = "chain" THEN [NoSig(NoChain(f)) EXCEPT !.chainJunk = TRUE] ELSE NoSig(f)
+    [] t = "ck_pad24_honest" -> IF src = "chain" THEN [f EXCEPT !.chainKey = "chain", !.sigChain = FALSE] ELSE f
+    [] t = "ck_pad24_degenerate" -> IF src = "chain" THEN [NoSig(f) EXCEPT !.chainKey = "chain"] ELSE NoSig(f)
+    [] t = "ck_pad31_honest" -> f
+    [] t = "ck_pad31_degenerate" -> NoSig(f)
     \* the account's current key is not the one in the state-init it was deployed with
     [] t = "chain_differs_signer_owner" -> IF src = "chain" THEN [f EXCEPT !.chainKey = "chain", !.sigChain = FALSE] ELSE f
     [] t = "chain_differs_signer_chain" -> IF src = "chain" THEN [f EXCEPT !.chainKey = "chain", !.sigSi = FALSE] ELSE NoSig(f)
@@ -97,7 +112,12 @@ Vector(src, ver, t, time) ==
   LET f == CaseFacts(src, ver, t, time) IN
   [src |-> src, ver |-> ver, tamper |-> t, time |-> time, f |-> f, want |-> Decide(f)]
 
-Cases == {<<s, v, t, tm>> \in Srcs \X WalletVersions \X Tampers \X Times : TimeProduct = "full" \/ tm = "fresh" \/ t = "none"}
+CkTampers == {"ck_zero_honest", "ck_zero_degenerate", "ck_one_honest", "ck_one_degenerate", "ck_short_honest", "ck_short_degenerate",
+              "ck_pad24_honest", "ck_pad24_degenerate", "ck_pad31_honest", "ck_pad31_degenerate"}
+\* (the rows about the account's answer only exist where the account answers)
+Cases == {<<s, v, t, tm>> \in Srcs \X WalletVersions \X Tampers \X Times :
+             /\ TimeProduct = "full" \/ tm = "fresh" \/ t = "none"
+             /\ t \in CkTampers => s = "chain"}
 
 Init == c \in {<<"todo", x>> : x \in Cases}
 Next == /\ c[1] = "todo"
